@@ -1,75 +1,69 @@
 /* c05_sched.h -- the list of schedules of the C05 position sweep:
  * the hand-written extension table of c05_common.h followed by a slice of the C01 grammar
  * (ref/rrgram.h) with synchronised DTSTARTs derived by the RFC evaluator (ref/rfc5545.h).
- * The list depends only on the options, so a schedule index identifies a schedule forever. */
+ * The enumeration depends only on the options, so a case index identifies a case forever.
+ * To be included after vdrv.h (the case bookkeeping is done here). */
 #if !defined INCLUDED_c05_sched_h_
 #define INCLUDED_c05_sched_h_
 #include "rfc5545.h"
 #include "rrgram.h"
 #include "c05_common.h"
 
-struct c05_sch_s {
-	char kind[40];
-	char lines[600];
-};
+typedef void (*c05_sched_fn)(const char *kind, const char *lines, void *clo);
 
-static struct c05_sch_s *c05_sch;
-static int c05_nsch, c05_zsch;
-
-static struct c05_sch_s*
-c05_sch_add(const char *kind, const char *lines)
+/* vdrv's deadline is only looked at on every 256th beat of vd_next(); cases here are long, so look ourselves */
+static int
+c05_deadline_hit(void)
 {
-	if (c05_nsch >= c05_zsch) {
-		c05_zsch = c05_zsch ? 2 * c05_zsch : 256;
-		c05_sch = realloc(c05_sch, (size_t)c05_zsch * sizeof(*c05_sch));
+	if (vd_deadline > 0 && vd_only < 0 && vd_now() > vd_deadline) {
+		vd_sh->capped = 1;
 	}
-	snprintf(c05_sch[c05_nsch].kind, sizeof(c05_sch->kind), "%s", kind);
-	snprintf(c05_sch[c05_nsch].lines, sizeof(c05_sch->lines), "%s", lines);
-	return &c05_sch[c05_nsch++];
+	return vd_sh->capped;
 }
 
 struct c05_gram_s {
 	int nanchors;
 	int terms_full;
+	c05_sched_fn fn;
+	void *clo;
 };
 
+/* one supervised case = (rule, anchor): the synchronised DTSTART is derived by the RFC evaluator
+ * only for cases of this shard; all terminations of the rule are run inside the case */
 static void
 c05_gram_rule(const struct rg_rule_s *g, void *clo)
 {
 	const struct c05_gram_s *c = clo;
-	rf_dt seen[RG_NANCHOR];
-	int nseen = 0;
 
 	for (int a = 0; a < c->nanchors && a < RG_NANCHOR; a++) {
 		static const int a_order[] = {0, 4, 6, 2, 1, 3, 5, 7};
 		rf_dt an = rg_anchor[a_order[a % 8]];
 		int64_t unb[8];
-		int ambig = 0, trunc = 0, n, dup = 0;
+		int ambig = 0, trunc = 0, n;
 		char dts[32], unts[32], lines[600], kind[40];
 
 		if (an.allday && (g->freq >= RF_HOURLY || g->ref.nH || g->ref.nM || g->ref.nS)) {
 			continue;
 		}
+		if (c05_deadline_hit() || !vd_next()) {
+			continue;
+		}
+		vd_desc("RRULE:%s from anchor #%d", g->text, a);
+		vd_shape("sched/gram-%s", rg_freqname[g->freq]);
 		n = rf_eval(&g->ref, an, rf_secs(an) + rg_window(g->freq), unb, 1, &ambig, &trunc);
 		if (!n || ambig) {
+			vd_count("skipped_empty_or_ambiguous", 1);
 			continue;
 		}
 		rf_dt t0 = rf_from_secs(unb[0], an.allday);
 		if (t0.y > 2058) {
 			continue;
 		}
-		for (int i = 0; i < nseen; i++) {
-			dup |= !memcmp(&seen[i], &t0, sizeof(t0));
-		}
-		if (dup) {
-			continue;
-		}
-		seen[nseen++] = t0;
 		rg_dtstr(dts, sizeof(dts), t0);
 		/* unbounded */
 		snprintf(kind, sizeof(kind), "gram-%s-inf", rg_freqname[g->freq]);
 		snprintf(lines, sizeof(lines), "DTSTART%s:%s\nRRULE:%s\n", t0.allday ? ";VALUE=DATE" : "", dts, g->text);
-		c05_sch_add(kind, lines);
+		c->fn(kind, lines, c->clo);
 		/* COUNT */
 		snprintf(kind, sizeof(kind), "gram-%s-count", rg_freqname[g->freq]);
 		{
@@ -79,7 +73,7 @@ c05_gram_rule(const struct rg_rule_s *g, void *clo)
 			for (int i = 0; i < ncs; i++) {
 				snprintf(lines, sizeof(lines), "DTSTART%s:%s\nRRULE:%s;COUNT=%d\n",
 					 t0.allday ? ";VALUE=DATE" : "", dts, g->text, cs[i]);
-				c05_sch_add(kind, lines);
+				c->fn(kind, lines, c->clo);
 			}
 		}
 		/* UNTIL on the 4th occurrence */
@@ -89,32 +83,47 @@ c05_gram_rule(const struct rg_rule_s *g, void *clo)
 			rg_dtstr(unts, sizeof(unts), rf_from_secs(unb[3], t0.allday));
 			snprintf(lines, sizeof(lines), "DTSTART%s:%s\nRRULE:%s;UNTIL=%s\n",
 				 t0.allday ? ";VALUE=DATE" : "", dts, g->text, unts);
-			c05_sch_add(kind, lines);
+			c->fn(kind, lines, c->clo);
 		}
 	}
 }
 
-/* EXT: include the extension table; then the grammar slice given by the rg_cfg */
+/* run FN on every schedule: the extension table (one case each) if EXT, then the grammar slice if GRAM */
 static void
-c05_build_schedules(int ext, int gram, int maxparts, int menucap, const char *intervals, int nanchors, int terms_full)
+c05_for_schedules(int ext, int gram, int maxparts, int menucap, const char *intervals, int nanchors, int terms_full, int date3,
+		  c05_sched_fn fn, void *clo)
 {
-	c05_nsch = 0;
 	if (ext) {
 		for (int i = 0; i < C05_NEXT; i++) {
-			c05_sch_add(c05_ext[i].kind, c05_ext[i].lines);
+			if (c05_deadline_hit() || !vd_next()) {
+				continue;
+			}
+			vd_shape("sched/%s", c05_ext[i].kind);
+			fn(c05_ext[i].kind, c05_ext[i].lines, clo);
 		}
 	}
 	if (gram) {
 		static int ivals[16];
 		struct rg_cfg_s c = {0};
-		struct c05_gram_s gc = {nanchors, terms_full};
+		struct c05_gram_s gc = {nanchors, terms_full, fn, clo};
+		static const int one[] = {1};
 		c.freq_lo = RF_YEARLY;
-		c.freq_hi = RF_SECONDLY;
+		c.freq_hi = RF_DAILY;
 		c.maxparts = maxparts;
-		c.maxdateparts3 = 0;
+		c.maxdateparts3 = date3;
 		c.menucap = menucap;
 		c.nintervals = rg_list(ivals, 16, intervals);
 		c.intervals = ivals;
+		rg_enumerate(&c, c05_gram_rule, &gc);
+		/* sub-daily frequencies: single parts and INTERVAL=1 only; sparse combinations such as
+		 * FREQ=SECONDLY;INTERVAL=2;BYMONTH=2;BYSECOND=0,59 make the fillers scan second by second
+		 * for months (termination and work bounds are C09's subject, not C05's) */
+		c.freq_lo = RF_HOURLY;
+		c.freq_hi = RF_SECONDLY;
+		c.maxparts = 1;
+		c.maxdateparts3 = 0;
+		c.nintervals = 1;
+		c.intervals = one;
 		rg_enumerate(&c, c05_gram_rule, &gc);
 	}
 }
@@ -179,7 +188,7 @@ c05_total(const char *text, int cap)
 			if (echs_nul_event_p(e)) {
 				break;
 			}
-			if (++n > cap) {
+			if (++n > cap || (e.from.y & 0x0fffU) > C05_MAXYEAR) {
 				n = -1;
 				break;
 			}
